@@ -499,6 +499,42 @@ def run(chk: Check) -> None:
                     chk.fail("formparser-buffer-size", f"form/files differ for buffer_size={bs}",
                              {"boundary": B.hex(), "body": body.hex(), "buffer_size": bs, "reference": repr(ref)[:300], "got": repr(got)[:300]})
 
+    # large buffers: more than 64 KiB pending in the decoder when a chunk edge falls next to a delimiter (any size-dependent
+    # shortcut in the hold-back / search logic shows here and nowhere else); every edge around each delimiter, 2-way splits
+    # and the form parser's default 64 KiB reads with leftovers.  Oracle (the property itself) on all, the model on a few.
+    n_big_model = 0
+    for (B, lb, sizes) in [(b"----WebKitFormBoundary7MA4YWxkTrZu0gW", b"\r\n", [65536 + 200, 3]), (b"B", b"\r\n", [65535, 65537]),
+                           (b"bound", b"\n", [66000]), (b"b-b", b"\r\n", [131072 + 5, 70000])][: (2 if quick else 4)]:
+        body = bytearray()
+        marks = []
+        for k, size in enumerate(sizes):
+            body += b"--" + B + lb + b'Content-Disposition: form-data; name="f%d"; filename="x"' % k + lb + lb
+            fill = (b"0123456789abcdef" * (size // 16 + 1))[:size]
+            if k == 0 and lb == b"\r\n":
+                fill = fill[:-3] + b"\r" + fill[-2:]          # a lone CR shortly before the end of the payload
+            body += fill + lb
+            marks.append(len(body))                            # the delimiter that ends part k starts just before here
+        body += b"--" + B + b"--" + lb
+        body = bytes(body)
+        edges = sorted({m + d for m in marks for d in range(-6, len(B) + 8) if 0 < m + d < len(body)})
+        scheds = [chunks_of(body, [e]) for e in edges]
+        scheds += [chunks_of(body, [e - 65536, e]) for e in edges[:: max(1, len(edges) // 8)] if e > 65536]
+        scheds += [chunks_of(body, list(range(65536, len(body), 65536)))]
+        oracle(B, body, scheds, True)
+        for ch in scheds:
+            chk.case(("big", B, len(body), tuple(len(c) for c in ch)), True)
+        ref = impl_form(B, body, 64 * 1024, None)
+        for bs in (65536, 65535, 65537, 4096, 1 << 20):
+            got = impl_form(B, body, bs, rng.choice([None, 65536 - 7, 1000]))
+            if got != ref:
+                chk.fail("formparser-buffer-size", f"form/files differ for buffer_size={bs} on a {len(body)}-byte body",
+                         {"boundary": B.hex(), "body_len": len(body), "buffer_size": bs})
+        if n_big_model < (1 if quick else 2):
+            for ch in scheds[:: max(1, len(scheds) // 6)]:
+                add(B, ch)
+            n_big_model += 1
+    chk.count("large-buffer-bodies", 2 if quick else 4)
+
     # malformed stream: model vs implementation only (no property claim on malformed bodies)
     n_mal = 1500 if quick else 50000
     for _ in range(n_mal):
